@@ -185,6 +185,22 @@ func runRuntime(cfg *Cfg) {
 			out.Sample("skip x" + hex.EncodeToString(bs))
 		}
 	}
+	// length prefixes of every width (1..5 bytes and non-minimal ones): Skip returns tag + prefix + length whether or
+	// not the payload is there (its callers do the bounds check), so only the header is needed
+	for _, ln := range []uint64{0, 1, 127, 128, 16383, 16384, 1<<21 - 1, 1 << 21, 1<<21 + 12345, 3 << 21, 1<<28 - 1, 1 << 28, 1<<31 - 1, 1 << 31, 1<<35 + 7} {
+		for _, pad := range []int{0, 1, 3} {
+			bs := protowire.AppendTag(nil, protowire.Number(1+r.Intn(3000)), protowire.BytesType)
+			v := protowire.AppendVarint(nil, ln)
+			for k := 0; k < pad && len(v) < 10; k++ { // non-minimal: continuation bit on the last byte, then a zero byte
+				v[len(v)-1] |= 0x80
+				v = append(v, 0)
+			}
+			bs = append(bs, v...)
+			bs = append(bs, 1, 2, 3)
+			out.Count("skip_length_prefix_cases")
+			skipCase(bs, 0)
+		}
+	}
 	// nesting depth of groups around protowire's limit (it accepts 10001 levels and refuses 10002): a record that
 	// protowire accepts must be skipped with exactly its length, whatever its depth; same / alternating / distinct
 	// field numbers per level, an inner record at the bottom, two bytes of the next record behind it
